@@ -72,6 +72,42 @@ def regen_consts():
     return True, "ok"
 
 
+ACCESS = dict(ok=True, detail="")
+
+
+def regen_access():
+    """AccessGen.v (C15's access table) is regenerated from /repo on every run.  A table
+    that no longer satisfies the discipline is NOT installed (the shared build must
+    stay usable for the other properties); C15 reads ACCESS and reports it."""
+    rc, out = sh([VH, "accesses", "/repo"], timeout=120)
+    if rc != 0 or "gen_sites" not in out:
+        ACCESS.update(ok=False, detail="vh accesses failed: " + out[-800:])
+        return
+    cur_path = os.path.join(COQ, "AccessGen.v")
+    cur = open(cur_path).read() if os.path.exists(cur_path) else None
+    if cur == out:
+        ACCESS.update(ok=True, detail="table unchanged; discipline_holds is part of the build")
+        return
+    trial = os.path.join(WORK, "access_try")
+    sh("rm -rf %s && mkdir -p %s" % (trial, trial))
+    for fn in ("Access.v", "AccessProofs.v"):
+        sh("cp %s %s/" % (os.path.join(COQ, fn), trial))
+    open(os.path.join(trial, "AccessGen.v"), "w").write(out)
+    open(os.path.join(trial, "Why.v"), "w").write(
+        "From Coq Require Import String List Bool.\nFrom G Require Import AccessGen Access.\n"
+        "Eval vm_compute in (map (fun a => (g_fn a, g_field a, g_line a)) (unknown_sites gen_sites)).\n"
+        "Eval vm_compute in (map (fun p => (g_fn (fst p), g_field (fst p), g_write (fst p), g_line (fst p), g_fn (snd p), g_write (snd p), g_line (snd p))) (failing_pairs gen_sites gen_calls)).\n")
+    rc, o = sh("timeout 600 coqc -Q . G AccessGen.v && timeout 600 coqc -Q . G Access.v && timeout 600 coqc -Q . G AccessProofs.v", cwd=trial, timeout=2000)
+    if rc == 0:
+        open(cur_path, "w").write(out)
+        ACCESS.update(ok=True, detail="table regenerated and installed")
+    else:
+        rc2, why = sh("timeout 600 coqc -Q . G Why.v", cwd=trial, timeout=700)
+        ACCESS.update(ok=False, detail="AccessProofs.v (discipline_holds) fails on the table regenerated from /repo: " + o[-600:] +
+                      "\nunclassified functions / unjustified conflicting pairs (fn, field, write, line, fn, write, line):\n" + why[-3000:])
+    sh("rm -rf %s" % trial)
+
+
 def build_coq(clean=False):
     """Full .vo build (never -vos).  Returns (ok, log)."""
     log = []
@@ -166,6 +202,9 @@ def build_harness():
     sh("cp /repo/go.sum go.sum", cwd=HARNESS)
     os.makedirs(os.path.join(HARNESS, "bin"), exist_ok=True)
     rc, out = sh(["go", "build", "-tags", "verif", "-o", "bin/vh", "."], cwd=HARNESS, env=GOENV, timeout=900)
+    if rc == 0 and os.environ.get("VERIF_BUILD_RACE") == "1":
+        rc, out2 = sh(["go", "build", "-race", "-tags", "verif", "-o", "bin/vh-race", "."], cwd=HARNESS, env=GOENV, timeout=900)
+        out += out2
     return rc == 0, out
 
 
@@ -178,6 +217,7 @@ def build_all(clean=False):
         ok, log = regen_consts()
         if not ok:
             return dict(ok=False, stage="consts", log=log)
+        regen_access()
         ok, log = build_coq(clean)
         if not ok:
             return dict(ok=False, stage="coq", log=log)
@@ -1251,6 +1291,176 @@ for _pid, _g in [("C06", ["c06"]), ("C07", ["c07"]), ("C08", ["c08"]), ("C09", [
     make_life_check(_pid, _g)
 
 
+@check("C05")
+def check_c05(tier, seed, res):
+    n = 40 if tier == "quick" else 2000
+    cases = gen_cases("c05", seed, n, tier)
+    os.makedirs(wd("C05"), exist_ok=True)
+    env = dict(GOENV, VERIF_CERTDIR=os.path.join(WORK, "certs"))
+    os.makedirs(env["VERIF_CERTDIR"], exist_ok=True)
+    subprocess.run([VH, "gencerts"], env=env, timeout=60)
+    p = subprocess.run([VH, "run"], input=cases, stdout=subprocess.PIPE, stderr=subprocess.PIPE, text=True, env=env, timeout=3000)
+    open(os.path.join(wd("C05"), "main.cases"), "w").write(cases)
+    open(os.path.join(wd("C05"), "main.impl"), "w").write(p.stdout)
+    impl = parse_results(p.stdout)
+    cm = case_map(cases)
+    stage2 = []
+    tot_frames = 0
+    for k, line in cm.items():
+        res.evaluations += 1
+        i = impl.get(k)
+        if i is None or i.startswith("HARNESS"):
+            res.mismatch(line, str(i), "-"); continue
+        res.nontrivial.add(line.split(" ", 2)[2])
+        if k[0] == "c05run":
+            res.traces += 1
+            if i.startswith("SPECFAIL") or not i.startswith("OK"):
+                res.violation("stream:" + line.split(" ")[2], line, i, "whole frames, exactly once, per-writer order", i)
+            else:
+                tot_frames += int(re.search(r"frames=(\d+)", i).group(1))
+                if res.evaluations % 3 == 1:
+                    res.sample(line + "  =>  " + i)
+        else:
+            frames, wire, results = i.split(" | ")
+            t = line.split(" ")
+            stage2.append((k, line, "wmodel %s %s %s %s" % (k[1], frames, t[-2], t[-1]), wire + " | " + results))
+    mout = run_driver("\n".join(x[2] for x in stage2) + "\n") if stage2 else ""
+    model = parse_results(mout)
+    for k, line, _, got in stage2:
+        m = model.get(("wmodel", k[1]))
+        if m is None or m.startswith(("DRIVER", "MODEL")):
+            res.mismatch(line, got[:300], str(m)); continue
+        # spec: what reached the socket is whole frames of the successful Writes plus a proper prefix of at most one failed frame
+        if got != m:
+            res.mismatch(line, got[:300], m[:300])
+        elif res.evaluations % 5 == 2:
+            res.sample(line + "  =>  results " + got.split(" | ")[1])
+    res.extra["frames_received_and_checked"] = tot_frames
+    res.rule = ("(a) N in {2,16,64} (thorough +300) handlers on ONE real connection write 1..6 identifiable frames each of sizes 7..70000 bytes (below, at and "
+                "above the 4096-byte buffer) at the same moment (common barrier), with and without a client that delays reading, over plain (thorough: + TLS "
+                "listener and StartTLS-upgraded) connections; the client parses the stream strictly and incrementally: only whole LDAPMessages, exactly the "
+                "frames written, each once, each writer's in order; (b) sequential Writes through real ResponseWriters over a writer that short-writes and fails "
+                "at a chosen call, bytes that reached the writer and per-Write results compared with Writer.v; distinct = distinct case text")
+    res.assumptions.append("net.Conn.Write / tls.Conn.Write are atomic with respect to other writes on the same connection (one writer at a time is what the mutex guarantees)")
+
+
+@check("C18")
+def check_c18(tier, seed, res):
+    cases = gen_cases("c18", seed, 0, tier)
+    os.makedirs(wd("C18"), exist_ok=True)
+    env = dict(GOENV, VERIF_CERTDIR=os.path.join(WORK, "certs"))
+    os.makedirs(env["VERIF_CERTDIR"], exist_ok=True)
+    subprocess.run([VH, "gencerts"], env=env, timeout=60)
+    p = subprocess.run([VH, "run"], input=cases, stdout=subprocess.PIPE, stderr=subprocess.PIPE, text=True, env=env, timeout=3000)
+    open(os.path.join(wd("C18"), "main.cases"), "w").write(cases)
+    open(os.path.join(wd("C18"), "main.impl"), "w").write(p.stdout)
+    impl = parse_results(p.stdout)
+    model = parse_results(run_driver(cases))
+    for k, line in case_map(cases).items():
+        res.evaluations += 1
+        i = impl.get(k); m = model.get(k)
+        if i is None or m is None or i.startswith("HARNESS"):
+            res.mismatch(line, str(i), str(m)); continue
+        res.nontrivial.add(line.split(" ", 2)[2])
+        res.traces += 1
+        t = line.split(" ")
+        target, cfg, beh = t[2], t[3], t[4]
+        tls_client = beh.startswith("tls-")
+        if "handler_ran=1" in i and (not tls_client or (cfg == "mtls" and beh != "tls-goodcert")):
+            res.violation("handler-reached:%s:%s" % (cfg, beh), line, i, m, "a handler ran for a client that does not satisfy the TLS configuration"); continue
+        if "bystanders=11" not in i or "alive=1" not in i:
+            res.violation("bystander-affected:%s:%s" % (cfg, beh), line, i, m, "a conforming client was affected by the offending connection"); continue
+        if i != m:
+            res.mismatch(line, i, m)
+        elif res.evaluations % 9 == 1:
+            res.sample(line + "  =>  " + i)
+    res.exhaustive = True
+    res.rule = ("the complete product {real gldap server, real test directory} x {server auth only, client certificate required and verified} x "
+                "{plaintext LDAP request (7 operations), arbitrary bytes, TCP connect without ClientHello, abandoned handshake, TLS without certificate, "
+                "certificate of a different CA, valid certificate}, each between two requests of a conforming bystander; observed: whether a handler ran "
+                "(worker events; for the directory: whether an LDAP response arrived), bystander results, process alive; exhaustive over this finite space")
+    res.assumptions.append("crypto/tls enforces the handshake (oracle hs_ok with contract tls_contract); the run confirms the expected table on the installed Go")
+
+
+@check("C15")
+def check_c15(tier, seed, res):
+    # proof side: the lock / happens-before discipline over the access table regenerated from the source
+    res.broken = []
+    if not ACCESS["ok"]:
+        res.broken.append("theorem discipline_holds (coq/AccessProofs.v, used by Props/C15.v): " + ACCESS["detail"])
+    gen = open(os.path.join(COQ, "AccessGen.v")).read()
+    res.extra["access_table"] = dict(sites=gen.count("mkSite \""), calls=gen.count("mkCall \""), regenerated_from="/repo/*.go, /repo/testdirectory/*.go (non-test, hook file excluded)",
+                                     status=ACCESS["detail"][:300])
+    # the workloads of C05-C13 and the directory workload, in a worker built with -race
+    rc, out = sh(["go", "build", "-race", "-tags", "verif", "-o", "bin/vh-race", "."], cwd=HARNESS, env=GOENV, timeout=900)
+    if rc != 0:
+        raise RuntimeError("race build failed: " + out[-1500:])
+    env = dict(GOENV, VERIF_CERTDIR=os.path.join(WORK, "certs"), VERIF_VH_RACE=os.path.join(HARNESS, "bin", "vh-race"),
+               VERIF_RACE_DUMP=os.path.join(wd("C15"), "race.dump"))
+    os.makedirs(wd("C15"), exist_ok=True)
+    if os.path.exists(env["VERIF_RACE_DUMP"]):
+        os.remove(env["VERIF_RACE_DUMP"])
+    os.makedirs(env["VERIF_CERTDIR"], exist_ok=True)
+    subprocess.run([VH, "gencerts"], env=env, timeout=60)
+    n = 2 if tier == "quick" else 20
+    cases = ""
+    for gname in (["c06", "c07", "c08", "c10", "c11", "c12", "c13"] if tier == "quick" else ["c06", "c07", "c08", "c09", "c10", "c11", "c12", "c13", "c17"]):
+        cases += gen_cases(gname, seed, n, tier)
+    cases = renumber(cases)
+    lines = [l for l in cases.splitlines() if l]
+    if tier == "quick":
+        lines = lines[::3]      # a third of the scenarios of every family
+    # add race=1 to the configuration of every scenario
+    cases = "\n".join(re.sub(r"^(life \S+ )(\S+)", lambda m: m.group(1) + m.group(2) + ":race=1", l) for l in lines) + "\n"
+    mout = run_driver(cases)
+    pred = parse_results(mout)
+    cm = case_map(cases)
+    runlines = ["liferun %s %s @@ %s" % (k[1], line.split(" ", 2)[2], pred[k]) for k, line in cm.items() if k in pred and not pred[k].startswith("DRIVER")]
+    dircases = gen_cases("c15dir", seed, 0, tier)
+    alltext = runlines + [l for l in dircases.splitlines() if l]
+    kk = min(8, len(alltext))
+    procs = []
+    outs = []
+    import threading
+    for j in range(kk):
+        chunk = alltext[j::kk]
+        p = subprocess.Popen([VH, "run"], stdin=subprocess.PIPE, stdout=subprocess.PIPE, stderr=subprocess.PIPE, text=True, env=env)
+        p._chunk = "\n".join(chunk) + "\n"
+        procs.append(p)
+    def feed(p):
+        o, e = p.communicate(p._chunk, timeout=3000)
+        outs.append(o)
+    ths = [threading.Thread(target=feed, args=(p,)) for p in procs]
+    [t.start() for t in ths]
+    [t.join() for t in ths]
+    iout = "".join(outs)
+    open(os.path.join(wd("C15"), "main.impl"), "w").write(iout)
+    fam = {}
+    for l in iout.splitlines():
+        parts = l.split(" ", 2)
+        if len(parts) < 3:
+            continue
+        res.evaluations += 1
+        res.traces += 1
+        kind = parts[0]
+        caseline = cm.get(("life", parts[1])) if kind == "liferun" else l
+        res.nontrivial.add(kind + parts[1])
+        fam[kind] = fam.get(kind, 0) + 1
+        if parts[2].startswith("RACE"):
+            digest = parts[2].split(" @ ")[0]
+            res.violation("race:" + digest[5:], caseline or l, parts[2][:600], "no data race", "the race detector reported a data race with a frame in gldap: " + digest)
+        elif parts[2].startswith("HARNESS"):
+            res.mismatch(caseline or l, parts[2][:300], "-")
+        elif res.evaluations % 5 == 1:
+            res.sample((caseline or l)[:200] + "  =>  " + parts[2][:80])
+    res.extra["workloads"] = fam
+    res.rule = ("the scenario families of C06-C13 (quick: a third of each; thorough: all plus C09/C17) and the directory workload (go-ldap clients binding, searching, "
+                "adding, modifying, deleting while the worker calls SetUsers/SetGroups/SetControls/SetAllowAnonymousBind and the getters) executed against a worker "
+                "built with -race; a report with a frame in github.com/jimlambrt/gldap is a failing history (replay = scenario + the two conflicting frames); "
+                "scenario snapshots are not compared here (timing under the detector differs), only races")
+    res.assumptions.append("DRF-SC: for Go, absence of co-enabled conflicting accesses in the interleaving semantics = data-race freedom; the detector sees only executed schedules")
+
+
 def renumber(text):
     out = []
     for j, l in enumerate(text.splitlines()):
@@ -1340,6 +1550,7 @@ def run_check(pid, tier, seed):
             CHECKS[pid](tier, seed, res)
         except Exception as e:  # noqa
             broken.append("correspondence run failed: %r" % (e,))
+        broken.extend(getattr(res, "broken", []))
     known = load_known(pid)
     unknown_viol = []
     seen_known = {}
